@@ -15,7 +15,7 @@
 //	           comp = hex of the compressed bytes ("=" when the codec is none and the bytes equal the input)
 //	      dec <codec> <max> <hex> [<lf>]     -> <res> <oracle>     Decompress with maxDecompressedSize = max
 //	      xd <max> <dstlen> <hex>            -> <res> <oracle>     xerialDecode(dst, src) directly (dst = dstlen bytes 0xAA)
-//	           res    = ok:<lf> | err:toolarge|xerial|other | panic:… | hang
+//	           res    = ok:<lf> | err:toolarge|xerial|other | panic:… | hang | pooldiff:<res>/<res with a user pool>
 //	           oracle = "-" | s:<k>:<fnv>:<eof|err|cap>  (the library reader run directly: k bytes then that ending)
 //	                  | b:<off>.<size>.<dl|e>.<ok|e|big|->;…   (s2.DecodedLen / s2.Decode of the blocks a correct walk visits)
 package main
@@ -226,6 +226,25 @@ func independentGunzip(comp, orig []byte) string {
 // ---------------------------------------------------------------- implementation side
 
 var decomps = map[int64]kgo.Decompressor{}
+var pooledDecomps = map[int64]kgo.Decompressor{}
+
+// userPool is a PoolDecompressBytes that hands out slices with a non-zero length and stale content.
+type userPool struct{}
+
+func (userPool) GetDecompressBytes(compressed []byte, _ kgo.CompressionCodecType) []byte {
+	return bytes.Repeat([]byte{0xEE}, 64+len(compressed)%200)
+}
+func (userPool) PutDecompressBytes([]byte) {}
+
+func pooledDecompFor(max int64) kgo.Decompressor {
+	kgo.VerifSetMaxDecompressedSize(max)
+	d, ok := pooledDecomps[max]
+	if !ok {
+		d = kgo.DefaultDecompressor(userPool{})
+		pooledDecomps[max] = d
+	}
+	return d
+}
 
 func decompFor(max int64) kgo.Decompressor {
 	kgo.VerifSetMaxDecompressedSize(max)
@@ -428,6 +447,18 @@ func opDec(t []string) string {
 		out, err := d.Decompress(src, kgo.CompressionCodecType(codec))
 		return resOf(out, err)
 	})
+	// the same call through a decompressor with a user-provided PoolDecompressBytes must answer the same
+	if codec != 0 && res != "hang" {
+		dp := pooledDecompFor(max)
+		res2 := hx.Guard(30*time.Second, func() string {
+			out, err := dp.Decompress(src, kgo.CompressionCodecType(codec))
+			return resOf(out, err)
+		})
+		if res2 != res {
+			res = "pooldiff:" + res + "/" + res2
+		}
+		hx.St.Inc("dec.userpool.checked")
+	}
 	hx.St.Inc(fmt.Sprintf("dec.codec.%d.%s", codec, strings.SplitN(res, ":", 2)[0]))
 	if strings.HasPrefix(res, "err:") {
 		hx.St.Inc("dec.err." + res[4:])
